@@ -48,17 +48,30 @@ def main():
         suite_ok = rc == 0 and "ok" in out and "FAIL" not in out
         result["suite_passes_with_change"] = suite_ok
         demo_fails = demo_passes_clean = None
-        if os.path.exists(demo):
+        # auxiliary files the demo needs (e.g. a C tool for C15 demos)
+        aux = [f for f in os.listdir(src) if f not in ("patch.diff", "notes.md", "zz_demo_test.go") and os.path.isfile(os.path.join(src, f)) and f.endswith((".c", ".h", ".sh", ".go"))]
+        demo_flags = "-race " if prop == "C19" else ""
+        # auxiliary files go where the agent had them: out/<n>/ inside the worktree
+        auxdir = os.path.join(wt, "out", os.path.basename(os.path.normpath(src)))
+        def place():
             shutil.copy(demo, os.path.join(wt, "zz_demo_test.go"))
-            rc, out = sh("go test -count=1 -run TestDemo . 2>&1 | tail -5", cwd=wt)
-            demo_fails = "FAIL" in out
+            os.makedirs(auxdir, exist_ok=True)
+            for f in aux:
+                shutil.copy(os.path.join(src, f), os.path.join(auxdir, f))
+        def unplace():
             os.remove(os.path.join(wt, "zz_demo_test.go"))
+            shutil.rmtree(os.path.join(wt, "out"), ignore_errors=True)
+        if os.path.exists(demo):
+            place()
+            rc, out = sh("go test %s-count=1 -run TestDemo . 2>&1 | tail -5" % demo_flags, cwd=wt)
+            demo_fails = "FAIL" in out
+            unplace()
             # clean tree
             sh(["git", "stash", "-q"], cwd=wt)
-            shutil.copy(demo, os.path.join(wt, "zz_demo_test.go"))
-            rc, out2 = sh("go test -count=1 -run TestDemo . 2>&1 | tail -5", cwd=wt)
+            place()
+            rc, out2 = sh("go test %s-count=1 -run TestDemo . 2>&1 | tail -5" % demo_flags, cwd=wt)
             demo_passes_clean = "FAIL" not in out2 and "ok" in out2
-            os.remove(os.path.join(wt, "zz_demo_test.go"))
+            unplace()
             sh(["git", "stash", "pop", "-q"], cwd=wt)
         result["demo_fails_with_change"] = demo_fails
         result["demo_passes_without_change"] = demo_passes_clean
@@ -80,6 +93,8 @@ def main():
             shutil.copy(patch, os.path.join(d, "patch.diff"))
             if os.path.exists(demo):
                 shutil.copy(demo, os.path.join(d, "zz_demo_test.go"))
+            for f in aux:
+                shutil.copy(os.path.join(src, f), os.path.join(d, f))
             notes = os.path.join(src, "notes.md")
             if os.path.exists(notes):
                 shutil.copy(notes, os.path.join(d, "notes.md"))
